@@ -338,7 +338,7 @@ def joint_bfs(task):
                     return False
             return True
         # joint state = (simulator state incl. inputs and clock levels, interpreter snapshot)
-        root_key = (sysm.read(), ctx.get(in_cat))
+        root_key = (sysm.read(), ctx.get(in_cat), None)
         seen = {root_key: None}
         frontier = [(root_key, it.snapshot(), [])]
         observe([])
@@ -366,10 +366,14 @@ def joint_bfs(task):
                     out["cov"]["transitions"] += 1
                     p2 = path + [list(a)]
                     ok = observe(p2)
-                    k2 = (sysm.read(), ctx.get(in_cat))
+                    snap2 = it.snapshot()
+                    # the key contains the interpreter's hidden state too (memory rows, register values): a path on which the RTLIL has silently
+                    # diverged from the simulator must not be merged with an earlier path that reached the same simulator state
+                    hidden = hash(repr([(sorted(v.items()), sorted((k, tuple(r)) for k, r in m_.items())) for v, m_ in snap2[0]]))
+                    k2 = (sysm.read(), ctx.get(in_cat), hidden)
                     if ok and k2 not in seen:
                         seen[k2] = True
-                        nxt.append((k2, it.snapshot(), p2))
+                        nxt.append((k2, snap2, p2))
             frontier = nxt
             depth += 1
         out["cov"]["states"] = len(seen)
